@@ -16,10 +16,6 @@ CONSTANTS
   MaxOps = 0
   Shipped = FALSE
 INVARIANT DomainOk
-INVARIANT ThmFitchIsMin
-INVARIANT ThmLeafChoice
-INVARIANT ThmUsedStates
-INVARIANT ThmScoreOp
 INVARIANT ThmMovesSound
-INVARIANT ThmRootInvariant
+INVARIANT ThmTable
 CHECK_DEADLOCK FALSE
